@@ -348,6 +348,9 @@ def make_mask_harness(n, chain):
     return harness
 
 
+WIDE = False
+
+
 def float_harness(ex):
     """float-level job (the real-number model cannot see rounding): for concrete values and awkward constants -- not powers of two -- the
     VALUE of dataset (+ - * /) constant / array / dataset is bit for bit the value of the plain NumPy operation on the value arrays, for
@@ -357,11 +360,13 @@ def float_harness(ex):
             np.array([49, 1, 10, 3, 700, 250000], dtype=np.int32)][ex.choice(3, 'dtype')]
     errs = np.array([1., 0.5, 0.01, 0., 1e-4, 1e3])
     consts = [3, 7, 10, 49, 0.1, -3, 1e-3, np.float64(7.), np.int64(49)]
+    if WIDE:          # thorough tier
+        consts += [11, 13, 97, 1 / 3, 1e-7, 6.02e23, -0.7, np.float32(0.1), np.int32(-7), 1e-30, 255]
     c = consts[ex.choice(len(consts), 'constant')]
     op = ex.choice(4, 'operation')
     kind = ex.choice(3, 'right-operand')        # constant, array, dataset
-    if kind == 0 and op < 2 and isinstance(c, np.integer):
-        return          # + and - refuse NumPy integer scalars with a documented TypeError
+    if kind == 0 and op < 2 and isinstance(c, np.generic) and not isinstance(c, float):
+        return          # + and - refuse NumPy scalars that are not Python numbers with a documented TypeError
     ds = Dataset(vals.copy(), errs.copy(), name='ds')
     if kind == 0:
         right, rv, re_ = c, c, None
@@ -390,7 +395,9 @@ def float_harness(ex):
     ex.check(bool(np.array_equal(ds.value, vals)) and bool(np.array_equal(ds.error, errs)), 'float-level:operands-unchanged')
 
 
-def _job_float(timeout_ms, seed=0):
+def _job_float(timeout_ms, seed=0, wide=False):
+    global WIDE
+    WIDE = wide
     return run_sym('f', float_harness, timeout_ms=timeout_ms, seed=seed,
                    require_checks=['float-level:value-is-bit-for-bit-the-plain-array-operation'])
 
@@ -416,7 +423,7 @@ def jobs(tier):
             out.append((f'{shape}-{bk}-chain1', _job,
                         dict(shape=shape, binkind=bk, chain=1, timeout_ms=20000 if tier == 'quick' else 120000)))
     out.append(('mask-n2-chain3', _job_mask, dict(n=2, chain=3, timeout_ms=20000)))
-    out.append(('float-level', _job_float, dict(timeout_ms=20000)))
+    out.append(('float-level', _job_float, dict(timeout_ms=20000, wide=(tier == 'thorough'))))
     if tier == 'thorough':
         out.append(('mask-n3-chain3', _job_mask, dict(n=3, chain=3, timeout_ms=20000)))
         out.append(('mask-n2-chain4', _job_mask, dict(n=2, chain=4, timeout_ms=20000)))
@@ -428,6 +435,8 @@ def jobs(tier):
 def replay(rp):
     name = rp['job']
     if name == 'float-level':
+        global WIDE
+        WIDE = True          # the pool of the thorough tier extends the one of the quick tier: indices agree
         return replay_sym(float_harness, rp['inputs'])
     if name.startswith('mask-'):
         n, chain = name.split('-')[1:]
